@@ -332,4 +332,47 @@ theorem mem_sortStrs (y : Str) (l : List Str) : y ∈ sortStrs l ↔ y ∈ l := 
     rw [this, mem_insertSorted, ih]
     simp [List.mem_cons]
 
+/-! ### the emitted class text never starts with `^` (unless the bracket expression is inverted) -/
+
+theorem SM.render_head (m : SM) : ∃ c r, m.render = c :: r ∧ c ≠ '^' := by
+  unfold SM.render
+  by_cases hc : m.c = '^'
+  · have hp : isAsciiPunct '^' = true := by decide +kernel
+    cases he : m.esc
+    · exact ⟨'\\', [m.c], by simp [hc], by decide⟩
+    · exact ⟨'\\', [m.c], by simp [hc, hp], by decide⟩
+  · cases he : m.esc
+    · simp only [Bool.false_eq_true, ite_false]
+      split
+      · exact ⟨'\\', [m.c], rfl, by decide⟩
+      · exact ⟨m.c, [], rfl, hc⟩
+    · simp only [ite_true]
+      split
+      · exact ⟨'\\', [m.c], rfl, by decide⟩
+      · exact ⟨m.c, [], rfl, hc⟩
+
+theorem SM.renderEnd_head (m : SM) : ∃ c r, m.renderEnd = c :: r ∧ c ≠ '^' := by
+  unfold SM.renderEnd
+  split
+  · exact ⟨'\\', ['-'], rfl, by decide⟩
+  · exact SM.render_head m
+
+theorem Member.render_head (m : Member) : ∃ c r, m.render = c :: r ∧ c ≠ '^' := by
+  cases m with
+  | cls n => exact ⟨'[', _, rfl, by decide⟩
+  | range f t =>
+    obtain ⟨c, r, h, hc⟩ := SM.renderEnd_head f
+    exact ⟨c, r ++ ['-'] ++ t.renderEnd, by simp [Member.render, h], hc⟩
+  | single x => exact SM.render_head x
+
+theorem renderMembers_ne_caret (ms : List Member) (r : Str) : renderMembers ms ≠ '^' :: r := by
+  cases ms with
+  | nil => simp [renderMembers, renderMembersGo]
+  | cons m ms =>
+    obtain ⟨c, t, h, hc⟩ := Member.render_head m
+    simp only [renderMembers, renderMembersGo, Bool.false_and, Bool.false_eq_true, ite_false, h]
+    intro heq
+    simp at heq
+    exact hc heq.1
+
 end BrushVerif.Pattern
